@@ -49,12 +49,15 @@ var jsonSeedsThrift = []struct{ name, doc string }{
 	{"all-kinds", `{"b":true,"y":-7,"h":300,"i":-100000,"l":9007199254740993,"d":-1.5e-3,"s":"a\"\\\n\u00e9\ud83d\ude00/` + "\u00e9" + `","bin":"AP8B","li":[1,2,3],"msi":{"k":1,"k2":2},"mis":{"7":"seven"},"st":{"a":1,"s":"x"},"ls":[{"a":2},{"s":"y"}],"ss":["p","q"],"rq":5,"unknown":[1,{"z":null}],"self":{"rq":1,"s":null}}`},
 	{"spaced", "{ \"rq\" : 1 ,\n\t\"li\" : [ 1 , 2 ] , \"msi\" : { \"a\" : 1 } , \"d\" : 0.5 }"},
 	{"minimal", `{"rq":0}`},
+	// every way a number can end in a zero (a truncation right behind it leaves the zero as the last byte of the input)
+	{"zeros", `{"rq":-0,"y":0,"h":-10,"d":-0.50,"l":-0e10,"i":100,"li":[0,-0,10],"mis":{"-0":"z","0":"y"},"ls":[{"a":-0}]}`},
 }
 
 var jsonSeedsProto = []struct{ name, doc string }{
 	{"all-kinds", `{"i32":-123,"i64":1099511627783,"u32":4000000000,"u64":18446744073709551615,"s32":-77,"fl":1.5,"db":-2.25,"b":true,"str":"he\"llo\n\u00e9` + "\u00e9" + `","byt":"AP8B","en":1,"msg":{"a":300,"s":"in"},"ri32":[1,300,-2],"rdb":[1.5,-2],"rstr":["ab",""],"rmsg":[{"a":1},{"s":"z"}],"msi":{"k1":5,"k2":600},"mis":{"7":"seven"},"msm":{"m":{"a":1}},"rb":[true,false],"self":{"self":{"i32":9},"str":"x"}}`},
 	{"spaced", "{ \"i32\" : 1 ,\n\t\"ri32\" : [ 1 , 2 ] , \"msi\" : { \"a\" : 1 } , \"db\" : 0.5 }"},
 	{"minimal", `{"i32":0}`},
+	{"zeros", `{"i32":-0,"u32":0,"s32":-10,"db":-0.50,"fl":-0e10,"i64":100,"ri32":[0,-0,10],"mis":{"-0":"z","0":"y"},"rmsg":[{"a":-0}]}`},
 }
 
 // jsonSubst: the single-byte substitution alphabet for JSON text (every position is structural).
@@ -227,7 +230,7 @@ func enumJSONPortable(yield func(core.Case) bool) {
 
 // ---------- short JSON texts ----------
 
-var jsonShortAlphabet = []byte{'{', '}', '[', ']', '"', ':', ',', '\\', '1', '-', 't', ' '}
+var jsonShortAlphabet = []byte{'{', '}', '[', ']', '"', ':', ',', '\\', '1', '-', 't', ' ', '0'}
 
 func enumJSONShort(tier string, yield func(core.Case) bool) {
 	maxLen := 3
